@@ -89,6 +89,9 @@ CHECKS = {
 "C12": ("exploration", "deterministic simulation: (a) seeded message histories through the real SendBuffer / MessageWriter with sequence headers inspected; (b) MITM reorder / duplicate / drop / hold / replay of a raw client's chunks before the real server reader loop; accepted-implies-fresh oracle",
         "Oracle: chunk numbers step by exactly one, request ids unique; a message the server answers consisted of consecutive numbers above every accepted one with one request id; a replayed accepted message is not answered again.",
         "Policy None so the MITM stage can read sequence headers; client-side receiver is exercised in C35's world.", "7/C12"),
+"C18": ("fault_enumeration", "deterministic simulation with a disk node: the enumerated decision table (3456 configurations) plus seeded histories of validations interleaved with administrator moves, disk faults on stored copies / store directories and simulated clock jumps, against the real CertificateStore on a scratch PKI directory; decision-table reference model",
+        "Oracle: Good => not in rejected/, byte-identical trusted copy (or trust-unknown and no copy), key length valid for the policy, and unless skip-verify: inside validity at the simulated time (when check-time), host and URI match; unknown and untrusted => in rejected/ afterwards; accepted => not in rejected/ afterwards.",
+        "Runs as root: permission faults not injectable. Wall clock through the verif clock seam (fixed mode).", "7/C18"),
 "C14": ("exploration", "deterministic simulation: seeded interleavings of requests, renew-begin / renew-end and forged-token requests from a raw client on secured channels against the real server tasks; token-epoch reference model, acceptance observed through the request's effect",
         "Oracle: a request secured under the server's current token, or the previous one while nothing newer has been received, takes effect; a request under a never-issued token (foreign keys or unknown token id) never does.",
         "Server side only (all policies x Sign/SignAndEncrypt, RSA 2048); the real client's handling of new-token responses is not covered.", "7/C14"),
